@@ -397,12 +397,19 @@ class CFG:
         return out
 
 
-def branch_conditions(parents: dict, func_node: ast.AST, node: ast.AST) -> tuple[list[ast.expr], list[ast.expr]]:
-    """(conditions known true, conditions known false) at `node`, read off the enclosing if/else arms."""
+def branch_conditions(parents: dict, func_node: ast.AST, node: ast.AST, early_exits: bool = False) -> tuple[list[ast.expr], list[ast.expr]]:
+    """(conditions known true, conditions known false) at `node`, read off the enclosing if/else arms
+    and, with early_exits, off the `if T: return/raise/continue/break` statements that precede it in its block."""
     pos, neg = [], []
     cur = node
     while cur is not None and cur is not func_node:
         p = parents.get(cur)
+        for fld in ("body", "orelse", "finalbody") if early_exits and p is not None else ():
+            blk = getattr(p, fld, None)
+            if isinstance(blk, list) and any(cur is x for x in blk):
+                for prev in blk[: [i for i, x in enumerate(blk) if x is cur][0]]:
+                    if isinstance(prev, ast.If) and not prev.orelse and prev.body and isinstance(prev.body[-1], (ast.Return, ast.Raise, ast.Continue, ast.Break)):
+                        neg.extend(prev.test.values if isinstance(prev.test, ast.BoolOp) and isinstance(prev.test.op, ast.Or) else [prev.test])
         if isinstance(p, ast.If):
             if any(cur is x for x in p.body):
                 pos.extend(p.test.values if isinstance(p.test, ast.BoolOp) and isinstance(p.test.op, ast.And) else [p.test])
